@@ -42,6 +42,9 @@ type Meta struct {
 	Real        []string
 	Stub        []string
 	NotDecided  []string
+	// HangIsViolation: a run that does not come back within the watchdog is a
+	// violation of this property (totality); otherwise it is harness trouble.
+	HangIsViolation bool
 }
 
 // PropEngine is what an engine implements per property.
